@@ -216,6 +216,15 @@ def classify_gen(o):
 
 
 def run(ctx):
+    if ctx.replay:
+        # a replay file records seed and tier; the run is deterministic in them, so
+        # re-running with the same values re-executes the recorded case
+        try:
+            with open(ctx.replay) as f:
+                rp = json.load(f)
+            ctx.seed, ctx.tier = int(rp.get('seed', ctx.seed)), rp.get('tier', ctx.tier)
+        except (OSError, ValueError):
+            raise Infra('cannot read replay file %s' % ctx.replay)
     rng = random.Random(ctx.seed * 104729 + 17)
     ctx.assumptions += [
         'documented syntax = ChartConfig.tla part A: "---" lines, field lines with the key at column 0 and a non-empty value without "#", comments / blank lines anywhere, '
